@@ -73,6 +73,9 @@ func loadProg(repo, specDir string) (*Prog, error) {
 			}
 		}
 	}
+	if err := p.specs.resolveLikes(); err != nil {
+		return nil, err
+	}
 	// index functions by contract key
 	for fn := range ssautil.AllFunctions(prog) {
 		if k := p.contractKey(fn); k != "" {
